@@ -45,6 +45,7 @@ from ..core import Machinery, close, frac, run_tlc
 from ..fixtures import GridOpacity, GridKTable
 from .. import fx_files as fx
 from .. import fx_exofile
+from .. import fx_hitranfile
 
 REL = 1e-12
 MOL = {'A': 'H2O', 'B': 'CH4'}
@@ -488,13 +489,18 @@ def hitran_class(v):
             gaps.add('above')
         if any(min(l) < t < max(l) and t not in l for t in v['master']):
             gaps.add('inside')
-    return order + ':' + ('+'.join(sorted(gaps)) or 'complete')
+    lays = sorted(set(v.get('layouts') or ['k']))
+    # record layouts of the blocks (spec/HitranCia.tla Layouts); files written in the plain layout only keep their class
+    return order + ':' + ('+'.join(sorted(gaps)) or 'complete') + ('' if lays == ['k'] else ':lay=' + ','.join(lays))
 
 
 def run_hitran(ctx, sb, vecs, units, tag):
     """Each vector is a file (sequence of (band, temperature) blocks as TLC wrote them) with the specification's physical
     table as coefficient vectors.  The file is written as HITRAN text in that order, the physical table as a pickle; both
-    are loaded through the real CIACache and must be the same function of (T, wavenumber)."""
+    are loaded through the real CIACache and must be the same function of (T, wavenumber).  Every block is written in the
+    record layout the specification chose for it (two / three data columns, short / full header: fx_hitranfile); the
+    uncertainty column holds values of its own.  Files with another layout than the plain one are also read through the
+    public constructor HitranCIA(filename) directly."""
     from taurex.cache import CIACache
     scale = 1 / fac(units['hitran'])
     d1, d2 = sb.mkdir('hitran_%s_pickle' % tag), sb.mkdir('hitran_%s_text' % tag)
@@ -502,7 +508,13 @@ def run_hitran(ctx, sb, vecs, units, tag):
         temps, master, bands = v['temps'], v['master'], v['bands']
         rng = random.Random('%d:%r' % (ctx.seed, v['file']))
         vals = {(b, t): [hitran_value(rng) for _ in BAND_WN[b]] for b, t in v['file']}
-        blocks = [(float(temps[t - 1]), BAND_WN[b], [float(q) for q in vals[(b, t)]]) for b, t in v['file']]
+        layouts = list(v.get('layouts') or ['k'] * len(v['file']))
+        if len(layouts) != len(v['file']) or any(l not in fx_hitranfile.LAYOUTS for l in layouts):
+            raise Machinery('HITRAN export: layouts %r do not match the file %r' % (layouts, v['file']))
+        erng = random.Random('err:%d:%r' % (ctx.seed, v['file']))
+        errs = {(b, t): [hitran_value(erng) / 8 for _ in BAND_WN[b]] for b, t in v['file']}     # the uncertainty column has values of its own
+        blocks = [(float(temps[t - 1]), BAND_WN[b], [float(q) for q in vals[(b, t)]], [float(q) for q in errs[(b, t)]], lay)
+                  for (b, t), lay in zip(v['file'], layouts)]
         wn_all = [w for b in bands for w in BAND_WN[b]]
         full = []
         for k in range(len(master)):
@@ -517,7 +529,7 @@ def run_hitran(ctx, sb, vecs, units, tag):
         cls0 = hitran_class(v)
         vec = dict(v, kind='hitran', seed=ctx.seed, tag=tag)
         fx.write_pickle_cia(d1, 'H2-H2', wn_all, mtemps, table)
-        fx.write_hitran_cia(d2, 'H2-H2', blocks, scale=float(scale))
+        fn_text = fx_hitranfile.write_hitran_blocks(d2, 'H2-H2', blocks, scale=float(scale))
         objs = {}
         for fmt, d in (('cia-pickle', d1), ('cia-hitran', d2)):
             sb.reset()
@@ -525,9 +537,16 @@ def run_hitran(ctx, sb, vecs, units, tag):
             try:
                 objs[fmt] = CIACache()['H2-H2']
             except Exception as e:
-                ctx.verdict('same_table_all_formats', False, cls='%s:%s' % (fmt, cls0), detail='file %r not loadable through the cache: %r' % (v['file'], e), vector=vec)
+                ctx.verdict('same_table_all_formats', False, cls='%s:%s' % (fmt, cls0), detail='file %r (layouts %r) not loadable through the cache: %r' % (v['file'], layouts, e), vector=vec)
         if len(objs) < 2:
             continue
+        if set(layouts) != {'k'}:
+            # second public route to the same reader: the constructor on the file itself
+            try:
+                from taurex.cia.hitrancia import HitranCIA
+                objs['cia-hitran-direct'] = HitranCIA(fn_text)
+            except Exception as e:
+                ctx.verdict('same_table_all_formats', False, cls='cia-hitran-direct:%s' % cls0, detail='file %r (layouts %r): HitranCIA(filename) failed: %r' % (v['file'], layouts, e), vector=vec)
         for fmt, obj in objs.items():
             cls = '%s:%s' % (fmt, cls0)
             try:
@@ -541,7 +560,7 @@ def run_hitran(ctx, sb, vecs, units, tag):
                     got = np.asarray(obj.cia(float(q['T'])), dtype=float)
                     ctx.verdict('same_table_all_formats', got.shape == want.shape and np.allclose(got, want, rtol=1e-11, atol=1e-70),
                                 cls=cls + (':node' if q['lo'] == q['hi'] else ':between'),
-                                detail='file %r (T index per band, file order): cia(%g K) = %r, physical table %r' % (v['file'], q['T'], got.tolist(), want.tolist()),
+                                detail='file %r (T index per band, file order; layouts %r): cia(%g K) = %r, physical table %r' % (v['file'], layouts, q['T'], got.tolist(), want.tolist()),
                                 vector=dict(vec, T=q['T']))
             except Exception as e:
                 ctx.verdict('same_table_all_formats', False, cls=cls + ':eval', detail='file %r: evaluation failed: %r' % (v['file'], e), vector=vec)
@@ -563,7 +582,7 @@ def select_files(vecs, limit, rng):
     """Unique files; when more than `limit`, keep every file of up to 4 blocks and a seeded sample of the longer ones."""
     seen, uniq = set(), []
     for v in vecs:
-        k = repr(v['file'])
+        k = repr((v['file'], v.get('layouts')))
         if k not in seen:
             seen.add(k)
             uniq.append(v)
@@ -978,7 +997,9 @@ def run(ctx):
                       exotransmit='files = every sequence of >= 2 distinct wavelength blocks over %d candidate wavelengths (%d files) + TLC-simulated files over 8; '
                                   'tables of 2..4 pressures x 2..4 temperatures, both interpolation modes' % ((5, 320) if q else (6, 1950)),
                       hitran='files = every sequence of distinct (band, temperature) blocks with >= 2 temperatures over 2 bands x 3 temperatures (1 944 files), '
-                             'TLC-simulated files over 3 bands x 4 temperatures; design model %s' % ('2 bands x 3 temperatures' if q else '2 bands x 4 temperatures'))
+                             'TLC-simulated files over 3 bands x 4 temperatures with a record layout per block (2 / 3 data columns, short / full header); '
+                             'every file over 2 bands x 2 temperatures x layouts %s; design model %s'
+                             % ('{k, k+err}' if q else '{k, k+err, ref:k, ref:k+err}', '2 bands x 3 temperatures' if q else '2 bands x 4 temperatures'))
     ctx.assumptions = ['object identity observed with `is` while every served object is kept alive',
                        'file loads counted by wrapping the reader constructors from outside the repository (HDF5 discovery opens with in_memory=False are not loads)',
                        'HITRAN values chosen exactly representable at the %10.3E precision of the format',
@@ -1000,6 +1021,10 @@ def run(ctx):
              ('refuted-hitran-hold-outside', 'MC_HitranCia', 'MC_HitranCia_hold_refuted.cfg', dict(workers=1), 'ReaderMatchesTable'),
              ('nonvacuous-hitran-unsorted-band', 'MC_HitranCia', 'MC_HitranCia_nonvac1.cfg', dict(workers=1), 'NeverUnsortedBand'),
              ('nonvacuous-hitran-interior-gap', 'MC_HitranCia', 'MC_HitranCia_nonvac2.cfg', dict(workers=1), 'NeverInteriorGap'),
+             # record layouts of a block (two / three data columns, short / full header), chosen block by block
+             ('hitran-layouts', 'MC_HitranCia', 'EX_HitranCia_layouts_%s.cfg' % t, dict(workers=1), None),
+             ('refuted-hitran-coefficient-from-last-field', 'MC_HitranCia', 'MC_HitranCia_lastfield_refuted.cfg', dict(workers=1), 'ReaderMatchesTable'),
+             ('refuted-hitran-header-from-the-right', 'MC_HitranCia', 'MC_HitranCia_headfromend_refuted.cfg', dict(workers=1), 'ReaderMatchesTable'),
              ('simulate-hitran', 'MC_HitranCia', 'SIM_HitranCia.cfg', dict(workers=1, simulate='num=%d' % (150 if q else 2500), depth=14, seed=ctx.seed + 1), None),
              # Exo-Transmit files as sets of wavelength blocks in any order; the re-ordering of the reader against the physical table
              # (the export config carries the invariants: design check and export in one run)
@@ -1062,6 +1087,10 @@ def run(ctx):
         raise Machinery('Exo-Transmit export does not cover every block layout')
     hfiles = results['hitran-design'].tagged('CIA')
     hsim = results['simulate-hitran'].tagged('CIA')
+    hlay = results['hitran-layouts'].tagged('CIA')
+    seen_lay = {l for v in hlay + hsim for l in v.get('layouts', [])}
+    if len(hlay) < (608 if q else 7808) or seen_lay != set(fx_hitranfile.LAYOUTS) or not any(len(set(v['layouts'])) > 1 for v in hlay):
+        raise Machinery('HITRAN record-layout export incomplete: %d files, layouts %r' % (len(hlay), sorted(seen_lay)))
     uvecs = results['export-units'].tagged('UVEC')
     if len(hfiles) < 1900 or not hsim or len(uvecs) < 500:
         raise Machinery('HITRAN / unit export incomplete: %d files, %d simulated files, %d unit vectors' % (len(hfiles), len(hsim), len(uvecs)))
@@ -1079,6 +1108,7 @@ def run(ctx):
         t2 = _time.time()
         nhit = run_hitran(ctx, sb, select_files(hfiles, 0, rng), units, 'exhaustive-2x3')
         nhit2 = run_hitran(ctx, sb, select_files(hsim, 0, rng), units, 'simulated-3x4')
+        nhit3 = run_hitran(ctx, sb, hlay, units, 'layouts-2x2')
         t3 = _time.time()
         nexo = run_exofiles(ctx, sb, select_files(efiles, 0, rng), units, 'exhaustive')
         nexo2 = run_exofiles(ctx, sb, select_files(esim, 0, rng), units, 'simulated-8')
@@ -1099,8 +1129,9 @@ def run(ctx):
             nh[k] = (n1, n2, n3)
     root_logger.setLevel(logging.ERROR)
     ctx.note('declared pressure units: %d containers loaded, %d unit spellings of the specification accepted by astropy (%s); HITRAN files as block sequences: '
-             '%d (every arrangement of every subset of 2 bands x 3 temperatures) + %d (TLC-simulated, 3 bands x 4 temperatures)'
-             % (nunit, len(admitted), ' '.join(admitted), nhit, nhit2))
+             '%d (every arrangement of every subset of 2 bands x 3 temperatures) + %d (TLC-simulated, 3 bands x 4 temperatures, record layout per block) '
+             '+ %d (every arrangement over 2 bands x 2 temperatures x record layouts %s)'
+             % (nunit, len(admitted), ' '.join(admitted), nhit, nhit2, nhit3, '{k, k+err}' if q else '{k, k+err, ref:k, ref:k+err}'))
     ctx.note('names through files: %d; containers loaded: %d; histories replayed (exhaustive depth 4, simulated depth 12) and random walks validated by TLC: %r' % (nfiles, nfmt, nh))
 
 
